@@ -189,7 +189,7 @@ fn conforms_at(ft: &FieldType, v: &FieldValue, strict: bool) -> Result<(), (&'st
                 match vals.get(k) {
                     Some(x) => conforms_at(t, x, strict)?,
                     // a missing key is an absent value
-                    None => conforms_at(t, &V::Null, strict).map_err(|_| ("keyset", kd))?,
+                    None => conforms_at(t, &V::Null, strict).map_err(|(_, inner)| ("keyset", inner))?,
                 }
             }
             Ok(())
